@@ -35,7 +35,7 @@ func init() {
 		Level: "fault_enumeration",
 		Modes: []Mode{{Name: "clean", Weight: 4}, {Name: "fault", Weight: 5}, {Name: "coincide", Weight: 2}, {Name: "stream", Weight: 3}},
 		Gen:   genC07, Run: runC07, Fixed: fixedC07,
-		QuickRuns: 5000, ThoroughRuns: 50000,
+		QuickRuns: 5000, ThoroughRuns: 300000,
 		Rule: "plan = (latency/jitter/chunking, client and server upgrade time-outs, numbered message script for both directions concentrated around the swap, one fault on the candidate connection: refuse | stall | black-hole | cut at byte k of c2s/s2c | pong held until the client's time-out instant (+-delta), stall parameters) from VERIF_SEED, " +
 			"plus a fixed sweep of cut offsets over both directions of the candidate connection; non-trivial = messages were in flight in both directions while the upgrade was in progress (or the fault fired); distinct = distinct history digest among those",
 		Assumptions: []string{
